@@ -18,8 +18,64 @@ use common::GenStats;
 pub const PROPS: &[&str] = &["C02", "C03", "C13", "C14", "C15", "C16", "C20"];
 
 pub fn generate(prop: &str, seed: u64, tier: Tier, stats: &mut GenStats) -> Scenario {
+    // PATH_MAX is the environment's limit, not the library's: a scenario in which some path the walk
+    // may spell comes near 4096 bytes (long names down a deep chain, reached once more through a
+    // link, behind a base spelled with a detour) would meet ENAMETOOLONG, which no property speaks
+    // of and no model here describes. Such a draw is replaced by the next draw of the same run
+    // (deterministically: the attempt number is mixed into the seed) and counted as restricted.
+    let mut attempt = 0u64;
+    loop {
+        let s = if attempt == 0 { seed } else { crate::rng::mix(seed, 0x5041_5448_0000 + attempt) };
+        let mut sc = generate_once(prop, s, tier, stats);
+        sc.seed = seed;
+        sc.prop = prop.to_string();
+        if longest_spelled_path(&sc) <= 3800 {
+            return sc;
+        }
+        stats.restricted += 1;
+        attempt += 1;
+        assert!(attempt < 64, "no scenario within the path length budget");
+    }
+}
+
+/// Upper estimate, in bytes, of the longest absolute path a walk of this scenario can spell.
+pub fn longest_spelled_path(sc: &Scenario) -> usize {
+    use crate::scenario::{Kind, Link, Spelling};
+    let tree_max = sc.tree.iter().map(|n| n.path.len()).max().unwrap_or(0);
+    let has_links = sc.tree.iter().any(|n| matches!(n.kind, Kind::Link { .. }));
+    let mut longest = tree_max;
+    // (with short paths everywhere, no nesting of the few links a tree has can come near the limit)
+    if has_links && tree_max > 300 {
+        if let Ok(m) = crate::model::Model::from_tree(&sc.tree) {
+            for v in m.traverse("", Link::ReadTarget, None) {
+                longest = longest.max(v.path.len());
+            }
+            // a walk that starts at (or climbs to) a directory below a link target spells no more
+            // than the traversal from the world root does, except through a base that is a link:
+            for w in &sc.walkers {
+                for v in m.traverse(&w.base, Link::ReadTarget, None) {
+                    longest = longest.max(v.path.len());
+                }
+            }
+        }
+    }
+    let detour = sc
+        .walkers
+        .iter()
+        .map(|w| match w.spelling {
+            Spelling::Odd { .. } => w.base.len() + 8,
+            _ => 8,
+        })
+        .max()
+        .unwrap_or(0);
+    let cwd_climb = 3 * (sc.cwd.matches('/').count() + 2);
+    // scratch root (`/dev/shm/waxsim.<pid>/<16 hex digits>` or a foreign tree under /tmp) + slack
+    128 + longest + detour + cwd_climb
+}
+
+fn generate_once(prop: &str, seed: u64, tier: Tier, stats: &mut GenStats) -> Scenario {
     let mut rng = Rng::new(seed);
-    let mut sc = match prop {
+    match prop {
         "C02" => c02::generate(&mut rng, tier, stats),
         "C14" => c14::generate(&mut rng, tier, stats),
         "C03" => c03::generate(&mut rng, tier, stats),
@@ -28,10 +84,7 @@ pub fn generate(prop: &str, seed: u64, tier: Tier, stats: &mut GenStats) -> Scen
         "C15" => c15::generate(&mut rng, tier, stats),
         "C20" => c20::generate(&mut rng, tier, stats),
         _ => panic!("unknown property {}", prop),
-    };
-    sc.seed = seed;
-    sc.prop = prop.to_string();
-    sc
+    }
 }
 
 pub fn check(sc: &Scenario, env: &mut Env) -> Result<Outcome, HarnessError> {
